@@ -513,8 +513,10 @@ def check(pid, tier, seed):
             cov["families"] = summ["fams"]
             cov["tlc_behaviours_replayed_on_impl"] = summ.get("tlc_replay", {})
             cov["events_validated"] = summ["events"]
-        extra = props.EXTRA.get(pid)
-        if extra:
+        extras = props.EXTRA.get(pid) or []
+        if not isinstance(extras, (list, tuple)):
+            extras = [extras]
+        for extra in extras:
             er = extra(tier, seed, key, sys.modules[__name__])
             viols += [v for v in er.get("viols", []) if pid in v["prop"].split("+")]
             cov.update({k: v for k, v in er.get("coverage", {}).items() if k not in ("states", "transitions")})
